@@ -76,12 +76,19 @@ CLAIMED = {
         technique="contract-based deductive verification: symbolic execution of the real Python source (attrs classes synthesised from their ASTs), loop invariants, VCs discharged by z3",
         design="3/C20",
     ),
+    "C02": dict(
+        category="proof",
+        text="(1) Decode chain under the ideal-network axiom (the network output is the C01 Gaussian target of the keypoints in the coordinates of the tensor it is given): for SingleInstanceInferenceModel.forward and FindInstancePeaks.forward (refinement None) every visible keypoint inside the map extent whose maximum reaches the threshold is returned within stride/(2*input_scale*eff_scale) per axis in original-image coordinates, invisible keypoints give NaN with value 0, the crop bounding box is rescaled by the same factors, other inputs pass through -- for all batch sizes, image sizes, strides, sigmas, scales (lemma chain: maximum bounds the neighbours -> exp argument order -> reported cell at least as close -> within half a step -> scaling). (2) Provider parity: make_pipeline of the single-instance, top-down and bottom-up predictors sets the same preprocess switch and config for LabelsReader and VideoReader; the divergence in the pinned tree was found by this obligation, demonstrated on the real code and repaired (fix: commit in known_findings.txt).",
+        note="ideal-network output is an axiom (IdealNet ghost); find_global_peaks enters through its Skolemised contract (C07); thresholds > 0. Not decided: refinement='integral' in the chain, CentroidCrop.forward/_generate_crops (data-dependent batching over symbolic peak counts), re-addition of the crop offset in TopDownPredictor._make_labeled_frames_from_generator, the per-frame body of _predict_generator, real networks.",
+        technique="contract-based deductive verification: symbolic execution of the real Python source against sidecar contracts, in-context lemma chain, VCs discharged by z3 (cvc5 for unknowns)",
+        design="3/C02",
+    ),
 }
 
 NOT_APPLICABLE = {
     "C19": "no pre/postcondition on a function of this repository expresses it: training completion, artifacts and crash-point file contents live in Lightning/wandb/OmegaConf and the file system (DESIGN.md section 5)",
 }
-NOT_BUILT = ["C02", "C03", "C08", "C09", "C10", "C12", "C14", "C16", "C18"]
+NOT_BUILT = ["C03", "C08", "C09", "C10", "C12", "C14", "C16", "C18"]
 
 
 def main():
